@@ -411,6 +411,50 @@ def r6c(prog, rep, config):
             else:
                 rep.violation('R6c', k, where=c.where(), fn=fn.name,
                               detail='a gain is filed under the year of Tx.%s: yearly figures must be keyed by the settlement year' % '/'.join(sorted(txf - {'settlement_date'}) or txf))
+    # R6c': every key of a year -> amount map is `Date::year()` of a settlement date, taken directly or through a crate function
+    # that itself returns nothing but `Date::year()` of its argument (not an ISO week-year, an ordinal, a fiscal year, ...)
+    def year_only(g, operand, depth=0):
+        o = mir.provenance(g, operand, follow_all_call_args=True)
+        bad = []
+        has_year = False
+        for x in o.calls:
+            if x.callee == 'time::Date::year':
+                has_year = True
+            elif x.short in ('deref', 'clone', 'borrow', 'as_ref', 'copied', 'cloned', 'into', 'from', 'next', 'into_iter', 'iter', 'keys',
+                             'unwrap', 'expect', 'get', 'index', 'deltas_or_partial_deltas', 'branch'):
+                continue
+            else:
+                h = prog.resolve(x.callee, g.crate)
+                if h is not None and depth < 2 and re.search(r'^i32$', h.ty.get(0, '')):
+                    ok2, bad2 = year_only(h, {'k': 'copy', 'pl': {'l': 0, 'p': []}}, depth + 1)
+                    if ok2:
+                        has_year = True
+                    else:
+                        bad.append(x)
+                elif x.callee.startswith('time::'):
+                    bad.append(x)
+        return (has_year and not bad), bad
+    n_k = 0
+    for fn in prog.product_fns():
+        if not re.match(r'^portfolio::(cumulative_gains|summary)::', fn.name) or mir.is_testsupport(fn.name):
+            continue
+        for c in fn.calls:
+            if c.short not in ('insert', 'entry') or len(c.args) < 2 or not re.search(r'HashMap<i32, ', fn.ty.get(c.arg_local(0), '')):
+                continue
+            ko = mir.provenance(fn, c.args[1], follow_all_call_args=True)
+            if not any(of == 'portfolio::model::tx::Tx' and 'date' in fl for (of, fl) in ko.fields):
+                continue      # a key copied from another year map
+            n_k += 1
+            ok_k, bad_k = year_only(fn, c.args[1])
+            kk = '%s|year-key-is-calendar-year#%d' % (fn.name, n_k)
+            if ok_k:
+                rep.ok('R6c', kk, where=c.where(), fn=fn.name, detail='the key is Date::year() of the transaction date')
+            else:
+                rep.violation('R6c', kk, where=c.where(), fn=fn.name,
+                              detail='the year under which a gain is filed is not plainly Date::year() of the settlement date (%s): around New Year '
+                                     'a row would be added to the neighbouring year\'s figure' % (short(bad_k[0].callee) if bad_k else 'no Date::year() on the way'))
+    if n_k < 2:
+        rep.violation('R6c', 'anchor-lost:year-keys', detail='anchor lost: only %d year-keyed insertions built from transaction dates found' % n_k)
     r6d(prog, rep)
     if n < 3:
         rep.violation('R6c', 'anchor-lost:year-sites', detail='anchor lost: only %d Date::year() sites on transaction dates in the gains/summary code' % n)
